@@ -46,6 +46,10 @@ MUT = [
      [(DOC, "                duplicate = part.get_style(family, stylename)", "                duplicate = dest.get_style(family, stylename)")]),
     ("font-face-default-flag-dropped", "flag-combination mutation (seeded C13-6: font-face + default=True must go to styles.xml)",
      [(DOC, "            if default:\n                existing, style_container = self._insert_style_get_font_face_default(", "            if default and automatic:\n                existing, style_container = self._insert_style_get_font_face_default(")]),
+    ("definition-string-cached", "shared-object mutation (seeded C13-7: the parsed definition string is cached and the cached node is moved)",
+     [(DOC, "from copy import deepcopy\n", "from copy import deepcopy\nfrom functools import cache\n"),
+      (DOC, "def container_from_template(", "@cache\ndef _style_from_definition(definition: str) -> Any:\n    return Element.from_tag(definition)\n\n\ndef container_from_template("),
+      (DOC, "            style_element: Style = Element.from_tag(style)  # type: ignore", "            style_element: Style = _style_from_definition(style)")]),
     ("rewrite-auto-name-comprehension", "behaviour-preserving rewrite",
      [(DOC, '''        max_index = 0
         for existing_style in styles:
